@@ -178,8 +178,7 @@ def _iter_source(e):
     return e
 
 
-def guards(ctx, F):
-    r = "R-11.3"
+def guards(ctx, F, r="R-11.3"):
     ctx.rule(r, "update(): early return on len >= MAX_LEN dominates counter writes; amount added is checked-converted length or MAX_LEN-len with the slice "
                 "truncated to the same amount; counter overflow checks discharged; only update/default write the counters", "N")
     gf = common.generator_fields(F)
